@@ -89,11 +89,15 @@ theorem takeFundPayment_moves {L : List Addr} {w : W} {amount : Nat} {asset : As
     (hclp : w.s.clp.clpAddr ∈ L) (hfund : fund ∈ L) (h : takeFundPayment w amount asset pct fund = .ok r) :
     Moves L w.s r.2.s ∧ r.2.mtp = w.mtp ∧ r.2.pool = w.pool := by
   unfold takeFundPayment at h
+  obtain ⟨fund', hf, h⟩ := bind_ok h
   obtain ⟨take, _, h⟩ := bind_ok h
   obtain ⟨bank, hb, h⟩ := bind_ok h
   have h := pure_ok h
   rw [← h]
   refine ⟨?_, rfl, rfl⟩
+  have hfe : fund' = fund := by
+    have := liftM_ok hf; unfold fundAddress at this; split at this <;> simp at this; exact this.symm
+  subst hfe
   have hb := ofBank_ok (liftE_ok hb)
   split at hb
   · simp at hb; rw [← hb]; exact Moves.refl _ _
